@@ -7,7 +7,7 @@ let c18_sig args =
   | [sigs; outs] ->
     let sigs = if sigs = "-" then "" else sigs and outs = if outs = "-" then "" else outs in
     let sl = List.init (String.length sigs) (fun i -> match sigs.[i] with 'i' | 'q' | 't' -> true | _ -> false) in
-    let ol = List.init (String.length outs) (fun i -> match outs.[i] with 'n' | 'B' -> ONil | 'e' | 'b' -> OErr | _ -> OPanic) in
+    let ol = List.init (String.length outs) (fun i -> match outs.[i] with 'n' | 'B' -> ONil | 'e' | 'b' | 'm' -> OErr | _ -> OPanic) in
     let (calls, st) = handle sl ol in
     "calls=" ^ String.concat "," (List.map string_of_z calls) ^ " status=" ^
     (match st with None -> "waiting" | Some s -> string_of_z s)
